@@ -3,12 +3,16 @@
 Relations
   front : validate_params -> simulate_gt (up to the first call of _simulate = "up front")
           -> write_breakpoints, on generated configurations: valid ones (any whitespace,
-          +-region, +-only_breakpoint, VCF or PGEN reference, +-no_replacement) and one
-          mutator per documented requirement (first / middle / last line), plus an
-          "undocumented malformation" stream that is compared with the model only.
+          +-region, +-only_breakpoint, VCF or PGEN reference, +-no_replacement, and a
+          --popsize grid 1, 2, 2n-1, 2n, 2n+1, 10n-1, 10n, 10n+1, 10000 crossed with these
+          options) and one mutator per documented requirement (first / middle / last line),
+          plus an "undocumented malformation" stream that is compared with the model only.
+          After acceptance: the population size every call of _simulate receives, and the
+          written .bp file parsed by an independent parser (C02's file checker runs on it).
   cli   : `haptools simgenotype` through click's CliRunner on one fixed valid configuration
-          with generated --region / --chroms strings: the arguments validate_params
-          receives and the final outcome.
+          with generated --region / --chroms / --popsize (absent = click's default) /
+          --only_breakpoint: the arguments validate_params receives, the population size
+          _simulate receives, the written .bp file and the final outcome.
 """
 import copy
 import os
@@ -24,12 +28,14 @@ from .core import Relation, err_kind
 
 PROP = "C20"
 CLAIMED = True
-COQ_MODULES = ["C20_Check", "C20_Proofs", "C20_Proofs2", "C20_Proofs3"]
+COQ_MODULES = ["C02_Check", "C20_Check", "C20_Proofs", "C20_Proofs2", "C20_Proofs3", "C20_Proofs4"]
 PROPERTY_MODULE = "C20_Property"
 ALLOWED_AXIOMS = []
 RULE = (
     "front: a configuration is non-trivial when it is Valid (all requirements with margin; must be accepted, "
-    "popsize >= 10*samples, simulated to completion) or violates a documented requirement and nothing else "
+    "the value validate_params returns and the population size every _simulate call receives >= 10*samples, simulated "
+    "to completion within the time limit, the written .bp passing C02's file checker: 2n framed haplotypes each tiling "
+    "every requested chromosome up to the sentinel with positive-fraction source labels) or violates a documented requirement and nothing else "
     "(must be refused before the first generation by an error naming a violated requirement). "
     "cli: non-trivial = the option strings parse. Distinct = distinct canonical JSON of the input."
 )
@@ -41,6 +47,10 @@ TRUSTED = [
     "deliberate refusals are recognised by message keywords (MESSAGES); an unknown wording of a plain Exception / click "
     "error counts as an explanatory refusal of unknown class (holds accepts it, agree does not)",
     "the simulation itself (after acceptance) is observed, not modelled here (C01/C02 model it)",
+    "the .bp file is parsed by this module's own parser (labels -> index among the header's population columns, "
+    "X -> 23); the cM column is not encoded (no demand on it) and haptools' own readers are not run (C02 does both)",
+    "'simulated to completion' = simulate_gt and write_breakpoints return within SIM_TIMEOUT seconds "
+    "(6 s for populations <= 1000, 30 s above; such runs take milliseconds resp. about a second)",
 ]
 ASSUMPTIONS = [
     "Valid adds to the documented requirements what the property's last sentence and the docs say: fractions in [0,1], "
@@ -48,6 +58,10 @@ ASSUMPTIONS = [
     "sorted by position and belonging to the chromosome of its file name",
     "reference / sample-info requirements are demanded only without --only_breakpoint (they are not read otherwise)",
     "cli: the requirements are judged on the arguments validate_params actually received",
+    "the chromosome end in a .bp file is the int32 sentinel 2147483647 also with --region (C02: _prepare_coords sets the "
+    "last kept marker to it), so C02's tilesb needs only the requested chromosomes in order",
+    "'effective population size' is read as both the value validate_params returns and the population size handed to "
+    "every call of _simulate; only '>= 10 * samples' is demanded (the text does not say '>= --popsize')",
     "undocumented malformations (blank lines, non-numeric fraction / map tokens, empty map file, unreadable reference, "
     "fractions outside [0,1] summing to 1, admixed contribution in the first generation, unsorted / repeated chromosomes) "
     "are compared with the model only; the property's list does not name them",
@@ -115,6 +129,22 @@ def frac_token(k, rng):
     return s
 
 
+POPSIZE_GRID = ["1", "2", "2n-1", "2n", "2n+1", "10n-1", "10n", "10n+1", "default"]
+
+
+def popsize_of(tag, n):
+    """--popsize boundary values: 2n haplotypes are drawn without replacement from the last generation, and the
+    effective size must be >= 10n; 'default' is click's default of the CLI option."""
+    return {"1": 1, "2": 2, "2n-1": max(1, 2 * n - 1), "2n": 2 * n, "2n+1": 2 * n + 1, "10n-1": 10 * n - 1,
+            "10n": 10 * n, "10n+1": 10 * n + 1, "default": 10000}[tag]
+
+
+def pick_popsize(n, rng):
+    # 'default' (a second per run) is kept rare
+    tag = str(rng.choice(POPSIZE_GRID[:-1])) if rng.random() < 0.96 else "default"
+    return popsize_of(tag, n), tag
+
+
 def structured(rng):
     """A Valid configuration in structured (token) form."""
     cfg = make_config(rng)
@@ -160,7 +190,7 @@ def structured(rng):
         "mapdir": "maps" if rng.random() < 0.85 else str(rng.choice(["chr9_maps", "maps_chr22", "chrX", "b38.chr1"])),
         "files": files,
         "chroms": list(cfg["chroms"]),
-        "popsize": int(cfg["popsize"]) if rng.random() < 0.8 else int(rng.choice([1, 7, 25, 40])),
+        "popsize": int(cfg["popsize"]) if rng.random() < 0.7 else pick_popsize(nsamp, rng)[0],
         "only_bp": bool(rng.random() < 0.45),
         "ref": {"kind": str(rng.choice(["vcf", "vcf", "pgen"])), "samples": ref},
         "srows": srows,
@@ -584,8 +614,13 @@ def gen_front(rng, n):
         s = structured(rng)
         r = k % 20
         k += 1
-        if r < 7:
+        if r < 5:
             label = "valid"
+        elif r < 7:
+            # option combinations: --popsize grid x --only_breakpoint x (region, reference type, no_replacement as drawn)
+            s["popsize"], tag = pick_popsize(int(s["htoks"][0]), rng)
+            s["only_bp"] = bool(rng.random() < 0.6)
+            label = f"valid:popsize={tag}"
         elif r < 17:
             label = MUTATORS[int(rng.integers(0, len(MUTATORS)))](s, rng)
         else:
@@ -650,6 +685,91 @@ def count_headers(path):
     return n
 
 
+def parse_bp(path, pops):
+    """Independent parser of the .bp format -> [[sample_no, strand, [[pop_index, chrom, end_bp]]]].
+    pop_index = position of the label among the header's population columns (0 = the admixed column), -1 = none of
+    them; chromosome X = 23, an unreadable chromosome = 0 (never requested). Raises ValueError on any other shape."""
+    rows = []
+    with open(path) as f:
+        for line in f:
+            parts = line.rstrip("\n").split("\t")
+            if len(parts) == 1:
+                m = re.fullmatch(r"Sample_(\d+)_(\d+)", parts[0])
+                if not m:
+                    raise ValueError(f"bad header line {line!r}")
+                rows.append([int(m.group(1)), int(m.group(2)), []])
+            elif len(parts) == 4:
+                if not rows:
+                    raise ValueError("block before the first header")
+                chrom = 23 if parts[1] == "X" else int(parts[1]) if re.fullmatch(r"\d+", parts[1]) else 0
+                float(parts[3])
+                rows[-1][2].append([pops.index(parts[0]) if parts[0] in pops else -1, chrom, int(parts[2])])
+            else:
+                raise ValueError(f"bad line {line!r}")
+    return rows
+
+
+class SoftTimeout(BaseException):
+    """not an Exception: `except Exception` in the code under test must not swallow it"""
+
+
+def sim_timeout(popsize):
+    return 6.0 if popsize <= 1000 else 30.0
+
+
+class time_limit:
+    """'simulated to completion': the accepted run has to return within the limit (SIGALRM in the worker process,
+    so the acceptance observed before stays attributed to this case; core's per-case timeout is the backstop)."""
+
+    def __init__(self, seconds):
+        self.seconds = seconds
+
+    def __enter__(self):
+        import signal
+
+        def fire(signum, frame):
+            raise SoftTimeout()
+
+        self.old = signal.signal(signal.SIGALRM, fire)
+        signal.setitimer(signal.ITIMER_REAL, self.seconds)
+
+    def __exit__(self, *a):
+        import signal
+
+        signal.setitimer(signal.ITIMER_REAL, 0)
+        signal.signal(signal.SIGALRM, self.old)
+        return False
+
+
+def header_n(inp):
+    toks = (inp.get("header") or "").split()
+    try:
+        return int(toks[0])
+    except Exception:  # noqa
+        return None
+
+
+def popsize_class(popsize, n):
+    if n is None or n < 1:
+        return "popsize-?"
+    return ("popsize<=0" if popsize <= 0 else "popsize<2n" if popsize < 2 * n else "2n<=popsize<10n" if popsize < 10 * n
+            else "popsize=10n" if popsize == 10 * n else "popsize>10n")
+
+
+def header_pops(header):
+    return (header or "").split()[1:]
+
+
+def read_bp(path, header):
+    """{"completed": headers, "rows": ...} or a failed-simulation record when the file is missing / unparsable"""
+    if not os.path.exists(path):
+        return {"failed": 15, "cls": "no .bp file", "stage": "output"}
+    try:
+        return {"completed": count_headers(path), "rows": parse_bp(path, header_pops(header))}
+    except Exception as e:  # noqa
+        return {"failed": err_kind(e), "cls": "unparsable .bp file", "stage": "output", "msg": str(e)[:160]}
+
+
 def run_pipeline(inp, d):
     """validate_params -> simulate_gt -> write_breakpoints with cwd = d (relative paths keep the
     model's view of the glob listing independent of the temporary directory's name)."""
@@ -665,10 +785,12 @@ def run_pipeline(inp, d):
         region = {"chr": inp["chroms"][0] if inp["chroms"] else "1", "start": inp["region"][0], "end": inp["region"][1]}
     obs = {"listing": sorted_listing(glob.glob(f"{mapdir}/*.map")), "isdir": os.path.isdir(mapdir), "sim": None}
     started = [False]
+    sizes = []
     real = sg._simulate
 
     def wrapped(*a, **k):
         started[0] = True
+        sizes.append(int(a[0] if a else k["popsize"]))          # the effective population size of this generation
         return real(*a, **k)
 
     try:
@@ -678,10 +800,18 @@ def run_pipeline(inp, d):
         obs["front"] = classify_exc(e)
         obs["stage"] = "validate_params"
         return obs
+    limit = sim_timeout(max(int(ps), int(inp["popsize"])) if isinstance(ps, int) else 0)
     sg._simulate = wrapped
     try:
         try:
-            ret = sg.simulate_gt(model, mapdir, list(inp["chroms"]), region, ps, log, inp["seed"])
+            with time_limit(limit):
+                ret = sg.simulate_gt(model, mapdir, list(inp["chroms"]), region, ps, log, inp["seed"])
+        except SoftTimeout:
+            if not started[0]:
+                return {"__timeout__": True}
+            obs["front"] = {"accept": int(ps)}
+            obs["sim"] = {"failed": 12, "cls": "Timeout", "stage": "simulate_gt", "msg": f"no result after {limit} s"}
+            return obs
         except Exception as e:  # noqa
             if not started[0]:
                 obs["front"] = classify_exc(e)
@@ -694,8 +824,12 @@ def run_pipeline(inp, d):
         sg._simulate = real
     obs["front"] = {"accept": int(ps)}
     try:
-        sg.write_breakpoints(ret[0], ret[1], ret[2], "out", log)
-        obs["sim"] = {"completed": count_headers("out.bp")}
+        with time_limit(limit):
+            sg.write_breakpoints(ret[0], ret[1], ret[2], "out", log)
+        obs["sim"] = read_bp("out.bp", inp["header"])
+        obs["sim"]["eff"] = min(sizes) if sizes else int(ps)
+    except SoftTimeout:
+        obs["sim"] = {"failed": 12, "cls": "Timeout", "stage": "write_breakpoints", "msg": f"no result after {limit} s"}
     except Exception as e:  # noqa
         obs["sim"] = dict(classify_exc(e), failed=err_kind(e), stage="write_breakpoints")
     return obs
@@ -743,7 +877,9 @@ def sim_term(s):
     if s is None:
         return "NotRun"
     if "completed" in s:
-        return f"(Completed {L.z(s['completed'])})"
+        seg = lambda b: f"(mkseg {L.z(b[0])} {L.z(b[1])} {L.z(b[2])} 0)"
+        row = lambda r: f"({L.z(r[0])}, {L.z(r[1])}, {L.lst(r[2], seg)})"
+        return f"(Completed {L.z(s['eff'])} {L.lst(s['rows'], row)})"
     return f"(SimFailed {L.z(s['failed'])})"
 
 
@@ -765,6 +901,14 @@ def vin_term(inp, listing, isdir, chroms=None, region="same", only_bp=None):
     )
 
 
+def small_population(front, sim, n):
+    """semantic tag for signatures: the effective population size fell below 10 x samples"""
+    if n is None or n < 1:
+        return ""
+    vals = [front.get("accept")] + ([sim.get("eff")] if sim and "eff" in sim else [])
+    return " with an effective population size below 10 x samples" if any(v is not None and v < 10 * n for v in vals) else ""
+
+
 def py_classify(inp):
     """Python re-statement of the narrow documented violations (labels for evidence / signature only)."""
     return inp.get("label", "?")
@@ -776,8 +920,9 @@ class Front(Relation):
     coq_check = "check_front"
     coq_case_type = "vcase"
     coq_model = "model_front"
-    coq_imports = ["C20_Model"]
+    coq_imports = ["Tracts", "C02_Model", "C20_Model"]
     budget = {"quick": 1100, "thorough": 12000}
+    timeout_per_case = 90
     max_cases_per_shard = 70
     max_chars_per_shard = 110_000
     anchors = [("haptools/sim_genotype.py", "validate_params"), ("haptools/sim_genotype.py", "_prepare_coords"),
@@ -796,6 +941,23 @@ class Front(Relation):
                 label = m(s, rng)
                 if label is not None:
                     out.append(render(s, rng, label))
+        # option combinations on valid configurations: popsize grid x only_breakpoint x region x reference type
+        for tag in POPSIZE_GRID:
+            for only_bp in (True, False):
+                for want_region in (True, False):
+                    for kind in ("vcf", "pgen"):
+                        for _ in range(40):
+                            s = structured(rng)
+                            if (s["region"] is not None) == want_region:
+                                break
+                        else:
+                            continue
+                        if tag == "default" and (kind == "pgen" or len(s["gens"]) > 2):
+                            continue                              # a second per run: a few suffice
+                        s["popsize"] = popsize_of(tag, int(s["htoks"][0]))
+                        s["only_bp"] = only_bp
+                        s["ref"]["kind"] = kind
+                        out.append(render(s, rng, f"valid:popsize={tag}"))
         return out + token_cases(rng)
 
     def run_impl(self, inp):
@@ -817,6 +979,7 @@ class Front(Relation):
     def classes(self, inp, obs):
         out = [inp["label"].split("@")[0], "only_bp" if inp["only_bp"] else "with-reference",
                "region" if inp["region"] else "no-region"]
+        out.append(popsize_class(inp["popsize"], header_n(inp)) + ("+only_bp" if inp["only_bp"] else ""))
         if "@" in inp["label"]:
             out.append("line@" + inp["label"].split("@")[1])
         if isinstance(obs, dict) and "front" in obs:
@@ -855,6 +1018,10 @@ class Front(Relation):
     def mutate(self, inp, rng):
         for _ in range(6):
             yield dict(inp, only_bp=not inp["only_bp"], seed=int(rng.integers(1, 2**31 - 1)))
+        n = header_n(inp)
+        if n is not None and 1 <= n <= 50:
+            for tag in POPSIZE_GRID[:-1]:
+                yield dict(inp, popsize=popsize_of(tag, n), only_bp=bool(rng.random() < 0.6))
         if inp["region"]:
             a, b = inp["region"]
             yield dict(inp, region=[b, a])
@@ -871,6 +1038,7 @@ class Front(Relation):
         elif "accept" in f:
             s = obs.get("sim") or {}
             what = "accepted" + (" and completed" if "completed" in s else f" then {s.get('stage')} raised {s.get('cls')}")
+            what += small_population(f, s, header_n(inp))
         elif "reject" in f:
             what = f"refused with message class {f['reject']}"
         else:
@@ -915,6 +1083,7 @@ def base_config():
 
 
 BASE = base_config()
+CLI_N = 2                              # samples of the base model
 
 
 def gen_region(rng):
@@ -944,6 +1113,9 @@ def gen_chroms(rng):
     return str(rng.choice(odd)), "odd"
 
 
+CLI_DEFAULT_POPSIZE = 10000          # click default of --popsize
+
+
 def run_cli(inp, d):
     import glob
 
@@ -955,16 +1127,20 @@ def run_cli(inp, d):
     model, mapdir, ref, sinfo = materialise(base, d)
     obs = {"listing": glob.glob(f"{mapdir}/*.map"), "isdir": True, "sim": None, "args": None}
     started = [False]
+    sizes = []
     real_sim, real_val, real_out = sg._simulate, sg.validate_params, sg.output_vcf
+    given = inp.get("popsize", base["popsize"])                   # None = option absent (click's default)
 
     def sim(*a, **k):
         started[0] = True
+        sizes.append(int(a[0] if a else k["popsize"]))
         return real_sim(*a, **k)
 
     def val(model, mapdir, chroms, popsize, invcf, sample_info, no_replacement, region=None, only_bp=False):
         obs["args"] = {"chroms": list(chroms),
                        "region": None if not region else [str(region["chr"]), int(region["start"]), int(region["end"])],
-                       "only_bp": bool(only_bp), "mapdir": mapdir}
+                       "only_bp": bool(only_bp), "mapdir": mapdir,
+                       "popsize": int(popsize) if isinstance(popsize, int) else -1}
         ps = real_val(model, mapdir, chroms, popsize, invcf, sample_info, no_replacement, region, only_bp)
         obs["accepted"] = int(ps)
         return ps
@@ -973,17 +1149,27 @@ def run_cli(inp, d):
         obs["output_vcf_called"] = True
 
     args = ["simgenotype", "--model", model, "--mapdir", mapdir + ("/" if inp.get("slash") else ""),
-            "--out", "o.vcf.gz", "--ref_vcf", ref, "--sample_info", sinfo, "--popsize", str(base["popsize"]),
+            "--out", "o.vcf.gz", "--ref_vcf", ref, "--sample_info", sinfo,
             "--seed", str(inp["seed"]), "--verbosity", "CRITICAL"]
+    if given is not None:
+        args += ["--popsize", str(given)]
     if inp["chroms"] is not None:
         args += ["--chroms", inp["chroms"]]
     if inp["region"] is not None:
         args += ["--region", inp["region"]]
     if inp["only_bp"]:
         args += ["--only_breakpoint"]
+    limit = sim_timeout(CLI_DEFAULT_POPSIZE if given is None else given)
     sg._simulate, sg.validate_params, sg.output_vcf = sim, val, out_vcf
     try:
-        res = CliRunner().invoke(main, args, catch_exceptions=True)
+        with time_limit(limit):
+            res = CliRunner().invoke(main, args, catch_exceptions=True)
+    except SoftTimeout:
+        if not started[0] or "accepted" not in obs:
+            return {"__timeout__": True}
+        obs["front"] = {"accept": obs["accepted"]}
+        obs["sim"] = {"failed": 12, "cls": "Timeout", "stage": "after the first generation", "msg": f"no result after {limit} s"}
+        return obs
     finally:
         sg._simulate, sg.validate_params, sg.output_vcf = real_sim, real_val, real_out
     obs["exit"] = res.exit_code
@@ -1000,7 +1186,8 @@ def run_cli(inp, d):
             obs["stage"] = "before the first generation"
         return obs
     obs["front"] = {"accept": obs.get("accepted", -1)}
-    obs["sim"] = {"completed": count_headers("o.bp")} if os.path.exists("o.bp") else {"failed": 15, "cls": "no .bp file", "stage": "output"}
+    obs["sim"] = read_bp("o.bp", base["header"])
+    obs["sim"]["eff"] = min(sizes) if sizes else obs.get("accepted", -1)
     return obs
 
 
@@ -1010,7 +1197,8 @@ class Cli(Relation):
     coq_check = "check_cli"
     coq_case_type = "clicase"
     coq_model = "model_cli"
-    coq_imports = ["C20_Model"]
+    coq_imports = ["Tracts", "C02_Model", "C20_Model"]
+    timeout_per_case = 90
     budget = {"quick": 400, "thorough": 4000}
     max_cases_per_shard = 120
     anchors = [("haptools/__main__.py", "simgenotype"), ("haptools/sim_genotype.py", "validate_params"),
@@ -1025,8 +1213,33 @@ class Cli(Relation):
             ch, ck = (None, "default")
             if rng.random() < (0.3 if reg is not None else 0.9):
                 ch, ck = gen_chroms(rng)
-            out.append({"chroms": ch, "region": reg, "only_bp": bool(rng.random() < 0.5), "slash": bool(rng.random() < 0.3),
-                        "seed": int(rng.integers(0, 1000)), "label": f"region-{rk} chroms-{ck}"})
+            case = {"chroms": ch, "region": reg, "only_bp": bool(rng.random() < 0.5), "slash": bool(rng.random() < 0.3),
+                    "seed": int(rng.integers(0, 1000)), "label": f"region-{rk} chroms-{ck}"}
+            # --popsize: the base's 12 (n = 2: 2n < 12 < 10n), the boundary grid, or absent (default)
+            r = rng.random()
+            if r < 0.4:
+                case["popsize"], tag = BASE["popsize"], "12"
+            elif r < 0.95:
+                tag = str(rng.choice(POPSIZE_GRID[:-1]))
+                case["popsize"] = popsize_of(tag, CLI_N)
+            else:
+                case["popsize"], tag = None, "default"
+            case["label"] += f" popsize-{tag}"
+            out.append(case)
+        return out
+
+    def exhaustive(self, tier):
+        # option combinations: popsize grid x --only_breakpoint x (--region / --chroms)
+        out = []
+        for tag in POPSIZE_GRID:
+            for only_bp in (True, False):
+                for ch, reg, lab in ((None, "1:100-2000", "region-start<=end chroms-default"), ("1,2,X", None, "region-none chroms-sorted-subset"),
+                                     ("2", None, "region-none chroms-sorted-subset")):
+                    if tag == "default" and ch == "1,2,X":
+                        continue
+                    out.append({"chroms": ch, "region": reg, "only_bp": only_bp, "slash": False, "seed": 7,
+                                "popsize": None if tag == "default" else popsize_of(tag, CLI_N),
+                                "label": f"{lab} popsize-{tag}"})
         return out
 
     def preamble(self):
@@ -1037,22 +1250,28 @@ class Cli(Relation):
         return in_tempdir(lambda d: run_cli(inp, d))
 
     def encode(self, inp, obs):
-        head = f"(mkcli base {L.opt(inp['chroms'], S)} {L.opt(inp['region'], S)} {L.b(inp['only_bp'])}"
+        given = inp.get("popsize", BASE["popsize"])
+        given = CLI_DEFAULT_POPSIZE if given is None else given
+        head = f"(mkcli base {L.opt(inp['chroms'], S)} {L.opt(inp['region'], S)} {L.b(inp['only_bp'])} {L.z(given)}"
         if not isinstance(obs, dict) or "front" not in obs:
-            return f"{head} None (Crash 97) NotRun)"
+            return f"{head} None {L.z(given)} (Crash 97) NotRun)"
         a = obs["args"]
         at = "None"
+        recv = given
         if a is not None:
             reg = L.opt(a["region"], lambda r: f"({S(r[0])}, {L.z(r[1])}, {L.z(r[2])})")
             at = f"(Some (mkargs {L.lst(a['chroms'], S)} {reg}))"
+            recv = a.get("popsize", given)
         # the base's glob order as observed must be the preamble's (all three files match by name only)
-        return f"{head} {at} {outcome_term(obs['front'])} {sim_term(obs['sim'])})"
+        return f"{head} {at} {L.z(recv)} {outcome_term(obs['front'])} {sim_term(obs['sim'])})"
 
     def nontrivial(self, inp, obs):
         return isinstance(obs, dict) and obs.get("args") is not None
 
     def classes(self, inp, obs):
         out = inp["label"].split() + ["only_bp" if inp["only_bp"] else "with-reference"]
+        given = inp.get("popsize", BASE["popsize"])
+        out.append(popsize_class(CLI_DEFAULT_POPSIZE if given is None else given, CLI_N) + ("+only_bp" if inp["only_bp"] else ""))
         if isinstance(obs, dict) and "front" in obs:
             f = obs["front"]
             out.append("accepted" if "accept" in f else f"reject-{f['reject']}" if "reject" in f else f"crash-{f['cls']}")
@@ -1063,10 +1282,14 @@ class Cli(Relation):
             yield dict(inp, chroms=None)
         if inp["slash"]:
             yield dict(inp, slash=False)
+        if inp.get("popsize", 12) is None or inp.get("popsize", 12) > 1:
+            yield dict(inp, popsize=1)
         yield dict(inp, seed=1)
 
     def mutate(self, inp, rng):
         yield dict(inp, only_bp=not inp["only_bp"])
+        for tag in POPSIZE_GRID[:-1]:
+            yield dict(inp, popsize=popsize_of(tag, CLI_N), only_bp=bool(rng.random() < 0.5))
         for _ in range(5):
             reg, rk = gen_region(rng)
             yield dict(inp, region=reg, label=f"region-{rk} chroms-x")
@@ -1075,6 +1298,9 @@ class Cli(Relation):
         f = obs.get("front") if isinstance(obs, dict) else None
         what = "unobserved" if f is None else "accepted" if "accept" in f else \
             f"refused with message class {f['reject']}" if "reject" in f else f"raised {f['cls']}"
+        if f is not None and "accept" in f:
+            s = obs.get("sim") or {}
+            what += ("" if "completed" in s else f" then {s.get('stage')} raised {s.get('cls')}") + small_population(f, s, CLI_N)
         rk = inp["label"].split()[0]
         flag = " with --only_breakpoint" if (rk == "region-start>end" and inp["only_bp"]) else ""
         return f"cli {rk}{flag}: {what}"
